@@ -53,6 +53,7 @@ impl StdRng {
         ensures lo <= r <= hi, final(self).stream == old(self).stream, final(self).pos@ == old(self).pos@ + 1, *final(tr) == (Trace { draws: old(tr).draws + 1, ..*old(tr) }),
     { unimplemented!() }
 }
+impl StdRng { #[verifier::external_body] pub fn clone(&self) -> (r: Self) ensures r == *self { unimplemented!() } }
 pub struct Mutex<T> { pub id: Ghost<int>, pub p: core::marker::PhantomData<T> }
 impl<T> Mutex<T> {
     /// a new mutex is a new object: distinct from every existing one
